@@ -4,6 +4,8 @@ import Mathlib.Tactic.Linarith
 import Mathlib.Tactic.Ring
 import Mathlib.Tactic.FieldSimp
 import Mathlib.Data.Rat.Floor
+import Mathlib.Tactic.Positivity
+import Mathlib.Tactic.NormNum
 /-
   C05 — helper lemmas for the translated fixnum code (Theorems/GenC05.lean) and for the
   Impl = Spec theorems (Theorems/C05Impl.lean): absence of wrap-around in the common prelude of the
@@ -195,6 +197,62 @@ theorem frac_abs_le_half (r b : Int) (hb : b ≠ 0) (h : 2 * r.natAbs ≤ b.natA
     rw [neg_div_neg_eq] at this
     simpa using this
   · exact key r b hpos h
+
+/-! ### shifts -/
+
+theorem ediv_unique (n P q : Int) (hp : 0 < P) (h1 : q * P ≤ n) (h2 : n < (q + 1) * P) : n / P = q := by
+  have a1 : n / P * P ≤ n := Int.ediv_mul_le n (ne_of_gt hp)
+  have a2 : n < (n / P + 1) * P := Int.lt_ediv_add_one_mul_self n hp
+  rcases lt_trichotomy (n / P) q with h | h | h
+  · exfalso
+    have : (n / P + 1) * P ≤ q * P := Int.mul_le_mul_of_nonneg_right (by omega) (le_of_lt hp)
+    omega
+  · exact h
+  · exfalso
+    have : (q + 1) * P ≤ (n / P) * P := Int.mul_le_mul_of_nonneg_right (by omega) (le_of_lt hp)
+    omega
+
+theorem shr_eq_div (n : Int) (m : Nat) : n >>> m = n / (2 : Int) ^ m := by
+  rw [Int.shiftRight_eq_div_pow]; push_cast; rfl
+
+theorem pow2_pos (m : Nat) : (0 : Int) < (2 : Int) ^ m := by positivity
+
+theorem pow2_mono (i j : Nat) (h : i ≤ j) : (2 : Int) ^ i ≤ (2 : Int) ^ j := by
+  exact_mod_cast Nat.pow_le_pow_right (by norm_num) h
+
+/-- an arithmetic right shift of an int64 stays in the int64 range -/
+theorem shr_inRange (n : Int) (m : Nat) (hn : inRange n) : inRange (n >>> m) := by
+  rw [shr_eq_div]
+  have hp := pow2_pos m
+  have a1 : n / (2 : Int) ^ m * (2 : Int) ^ m ≤ n := Int.ediv_mul_le n (ne_of_gt hp)
+  have a2 : n < (n / (2 : Int) ^ m + 1) * (2 : Int) ^ m := Int.lt_ediv_add_one_mul_self n hp
+  unfold inRange at *
+  rcases le_or_gt 0 n with h | h
+  · have h1 : 0 ≤ n / (2 : Int) ^ m := Int.ediv_nonneg h (le_of_lt hp)
+    have h2 : n / (2 : Int) ^ m ≤ n := Int.ediv_le_self _ h
+    omega
+  · have h1 : n / (2 : Int) ^ m < 0 := Int.ediv_neg_of_neg_of_pos h hp
+    have h2 : n ≤ n / (2 : Int) ^ m := by
+      by_contra hc
+      have : (n / (2 : Int) ^ m + 1) ≤ n := by omega
+      have h3 : (n / (2 : Int) ^ m + 1) * (2 : Int) ^ m ≤ (n / (2 : Int) ^ m + 1) * 1 :=
+        Int.mul_le_mul_of_nonpos_left (by omega) (by omega)
+      omega
+    omega
+
+/-- shifting an int64 right by 63 or more leaves only the sign -/
+theorem shr_sat (n : Int) (j : Nat) (hj : 63 ≤ j) (hn : inRange n) : n >>> j = n >>> (63 : Nat) := by
+  have key : ∀ k : Nat, 63 ≤ k → n >>> k = if n < 0 then -1 else 0 := by
+    intro k hk
+    rw [shr_eq_div]
+    have hp := pow2_pos k
+    have hm := pow2_mono 63 k hk
+    unfold inRange at hn
+    by_cases h : n < 0
+    · rw [if_pos h]; apply ediv_unique _ _ _ hp <;> norm_num at hm ⊢ <;> omega
+    · rw [if_neg h]; apply ediv_unique _ _ _ hp <;> norm_num at hm ⊢ <;> omega
+  rw [key j hj]; exact (key 63 (le_refl _)).symm
+
 
 end Impl
 end SlipVerif.Num
